@@ -358,6 +358,16 @@ func kems(rng *rand.Rand, n int, thorough bool) {
 			bad[rng.Intn(len(bad))] ^= 1 << uint(rng.Intn(8))
 			ss3, err := sch.Decapsulate(sk, bad)
 			emit("kem."+name, "Decapsulate(altered)", [][]byte{seed, es, bad}, ss3, []byte(fmt.Sprint(err)))
+			for _, fill := range []byte{0xff, 0xee} { // public keys whose coefficients are not reduced (round-3 Kyber does not refuse them)
+				pkf, err := sch.UnmarshalBinaryPublicKey(bytes.Repeat([]byte{fill}, len(pkb)))
+				if err != nil {
+					emit("kem."+name, fmt.Sprintf("Encapsulate(key of %02x)", fill), [][]byte{seed}, []byte("refused: "+err.Error()))
+					continue
+				}
+				var ctf, ssf []byte
+				oc := vlib.Safe(60e9, func() { ctf, ssf, err = sch.EncapsulateDeterministically(pkf, es) })
+				emit("kem."+name, fmt.Sprintf("Encapsulate(key of %02x)", fill), [][]byte{seed, es}, ctf, ssf, []byte(fmt.Sprint(err, oc.Bad())))
+			}
 			for _, fill := range []byte{0x00, 0xff, 0x55} { // constant ciphertexts: extreme decompressed coefficients through the (vectorised) NTT
 				cc := bytes.Repeat([]byte{fill}, len(ct))
 				ssc, err := sch.Decapsulate(sk, cc)
